@@ -684,7 +684,7 @@ func (vc *VC) havocTargets(st *State, ts []locTarget) {
 			st.heap.m[n] = f
 			vc.heapSort[n] = srt
 			for _, t := range keyed {
-				vc.heapMods[n] = append(vc.heapMods[n], heapMod{key: t.key, cond: t.cond})
+				vc.heapMods[n] = append(vc.heapMods[n], heapMod{key: t.key, cond: t.cond, site: st.cond})
 			}
 			continue
 		}
@@ -702,7 +702,7 @@ func (vc *VC) havocTargets(st *State, ts []locTarget) {
 			} else {
 				h = sto(h, t.key, sel(f, t.key))
 			}
-			vc.heapMods[n] = append(vc.heapMods[n], heapMod{key: t.key, cond: t.cond})
+			vc.heapMods[n] = append(vc.heapMods[n], heapMod{key: t.key, cond: t.cond, site: st.cond})
 		}
 		vc.setHeapTracked(st, n, srt, h)
 	}
